@@ -92,6 +92,64 @@ CLAIMED = {
         note=("Trusted: Coq kernel, extraction + OCaml driver, harness, hook tcb::verif_len; correspondence is testing. "
               "'Distinct flows' are counted as distinct cookies (they differ from 4-tuples only on a SipHash collision, C08)."),
         technique="Coq invariant by induction over histories + table-size correspondence through a hook"),
+    "C11": dict(
+        text=("Coq theorems over the model's TCP application layer (tcp_stream: a validated flow fed segment by segment "
+              "from a fresh control block): for a flow whose first segment completes the protocol signature, (RPC) every "
+              "segment up to and including the one completing the first message is answered with a function of the stream "
+              "prefix ending with that segment, for any number of cuts; (HTTP) the flow is the fold of the responder, the "
+              "responder never gets stuck, and the segment that carries the 401 is the first one at whose end ONE "
+              "whole-buffer parse of the stream prefix is in CONTENT (everything before gets a bare ACK), using the "
+              "parser-level theorems parse (parse s a) b ~ parse s (a ++ b) proved up to dead states (Properties/C11http.v); "
+              "the known class (first segment ends inside the signature) is refuted by a kernel-computed witness. Tied to "
+              "/repo by sending each stream under every 1-cut and 2-cut segmentation and sampled k-cuts on a fresh "
+              "validated flow: the completion offset is measured with single-segment prefixes and every segmentation must "
+              "show bare ACKs before, the reply at the segment containing that offset; model compared on every segment."),
+        design="DESIGN.md section 5, C11",
+        note=("Trusted: Coq kernel/vm_compute, extraction + OCaml driver, harness; correspondence is testing. Known finding "
+              "short_first_segment in known_findings.txt. The theorems speak about the application layer under the "
+              "hypothesis that identification completed in the first segment (tcp_first_id); the transport framing is C07."),
+        technique="Coq theorems (fold/append laws of the incremental parsers lifted to flows) + refutation witness for the known class + exhaustive 1-/2-cut segmentation correspondence"),
+    "C12": dict(
+        text=("Coq theorems over the model: frames that layers 2-4 mark as replies (ARP ops other than request, ICMP/ICMPv6 "
+              "echo replies, neighbour advertisements, TCP SYN|ACK and RST words -- decided for all 512 flag words) get no "
+              "reply and leave the table untouched; a DNS message with QR=1 is never answered by the DNS responder and "
+              "whatever answers it is not a DNS response; STUN indications / responses / other methods get no STUN "
+              "response; every DNS / STUN / RPC reply the responder emits is itself reply-typed. The reflection-chain "
+              "clause (at most two replies) is NOT proved: it is monitored on the implementation (bounce of every reply "
+              "up to 4 hops, for generated reply-typed messages and for the responder's own replies), together with the "
+              "extracted monitor ok_C12 (a reply-typed message of protocol X is not answered by an X reply)."),
+        design="DESIGN.md section 5, C12",
+        note=("Partial: chain clause monitored, not proved; SMB reply flag is C17's negative clause, RPC reply message type "
+              "rests on identification (C10) and on the message-type test added by fix c541e3c. Two defects found by this "
+              "check were repaired (per-flow parser never reset; RPC REPLY messages answered on an RPC flow). "
+              "Observations outside the property: SSH banners and Gh0st frames are valid requests as well as replies, and "
+              "a FIN|ACK is answered with a FIN|ACK, so two responders can bounce those for ever."),
+        technique="Coq theorems (finite flag table + per-responder lemmas on the context-free cores) + extracted monitor + reflection-chain monitor on the implementation"),
+    "C13": dict(
+        text=("Coq theorems over the model of the HTTP responder and of proto::repl, for the tables and the 401 template "
+              "dumped from the implementation on every run: (grammar) an independent reference grammar Lstrict (nine "
+              "methods, SP, target starting with '/', SP, HTTP/digit+.digit+, CRLF or LF, name:value lines, empty line) is "
+              "given declaratively and as a boolean recogniser, proved equivalent, prefix-unique and contained in a "
+              "second recogniser Lrelaxed that lists every leniency; (language) from a fresh parser state a payload is "
+              "answered iff it has a complete Lrelaxed prefix, hence every Lstrict request followed by any bytes is "
+              "answered and unknown methods, malformed request/header lines (incl. CR/LF in the target, empty version "
+              "numbers) and unterminated requests are not; the answer is pre ++ date ++ post, which is well-formed "
+              "(HTTP/1.1 401, WWW-Authenticate, Content-Length = bytes after the empty line) for every date without LF; "
+              "(dispatch) the same through proto_repl_udp and through proto_repl_tcp on a fresh control block, payloads "
+              "starting with one of the nine 'VERB /' signatures are identified as HTTP, and the model satisfies the "
+              "extracted payload-level monitor. The verb phase is tied to the compiled HTTP_SMACK table by a product walk "
+              "against the method trie decided by vm_compute (clause of env_ok). Tied to /repo by differential execution "
+              "of grammar-directed requests, all prefixes and single-byte faults over UDP (v4/v6) and TCP, with logging "
+              "off and at warn; the extracted monitors and an independent Python oracle judge the implementation's output."),
+        design="DESIGN.md section 5, C13 (and C11 for the parser-level segmentation theorems in Properties/C11http.v)",
+        note=("Trusted: Coq kernel/vm_compute, extraction + OCaml driver, harness incl. its Python oracle, data translator; "
+              "the correspondence is testing. Payload-level theorems (bytes_ok payload, identification given or derived "
+              "from the 'VERB /' prefix); they are not lifted to whole frames in this property (frame-level monitors "
+              "ok_C13_udp / ok_C13_tcp are evaluated on the implementation only). Lower-case methods are accepted by the "
+              "responder's own matcher but never dispatched to it (protocol matcher is case-sensitive). The agent's observation that "
+              "every later data segment on an answered flow got another 401 was repaired in /repo (fix ab1cb4b: the parser "
+              "state is reset after a reply)."),
+        technique="Coq theorems (reference grammar + exact parser language + response template facts by vm_compute) + model/implementation correspondence + extracted monitors"),
     "C19": dict(
         text=("Coq theorems over the model's application layer: for every datagram payload, and for every first TCP data "
               "segment, the reply is render(core, context) where the core (silent / constant bytes / STUN transaction id + "
